@@ -3,6 +3,8 @@ mod c01;
 mod c02;
 mod c03;
 mod c04;
+mod c05;
+mod numty;
 mod c06;
 mod sweep;
 mod c07;
@@ -49,6 +51,7 @@ fn main() {
                 "C02" => c02::run(tier),
                 "C03" => c03::run(tier),
                 "C04" => c04::run(tier),
+                "C05" => c05::run(tier),
                 "C06" => c06::run(tier),
                 "C07" => c07::run(tier),
                 "C08" => c08::run(tier),
@@ -85,6 +88,7 @@ fn main() {
                 "c13-f64" => c13::replay_f64(case),
                 "c15" => c15::replay(case),
                 "c04" => c04::replay(case),
+                "c05" => c05::replay(case),
                 "val-tree" => c16::replay_tree(case),
                 "val-op" => c16::replay_op(case),
                 "c06-text" => c06::replay_text(case),
